@@ -564,4 +564,172 @@ theorem decode_encode_compact (tag : Bytes) (attrs : List (Bytes × Bytes)) (cs 
     simpa [absorbL, flushK] using hs
   exact finish_single c' _ _ _ _ hs'
 
+/-! ## the indented encoding -/
+
+/-- pending text that the `FREE` `'<'` case drops -/
+def Blank (w : Bytes) : Prop := (w.any fun x => !isWs x) = false
+
+theorem flushK_blank (ks : List Tree) (w : Bytes) (h : Blank w) : flushK ks w = ks := by
+  unfold flushK; rw [h]; simp
+
+theorem flushF_blank (F : AFrame) (w : Bytes) (h : Blank w) : flushF F w = F := by
+  unfold flushF; rw [flushK_blank _ _ h]
+
+theorem blank_nil : Blank [] := rfl
+theorem blank_nl : Blank [10] := by unfold Blank; decide
+
+theorem blank_append {a b : Bytes} (ha : Blank a) (hb : Blank b) : Blank (a ++ b) := by
+  unfold Blank at *; simp [List.any_append, ha, hb]
+
+theorem blank_tabs (n : Nat) : Blank (tabs n) := by
+  unfold Blank tabs
+  induction n with
+  | zero => rfl
+  | succ k ih => simp [List.replicate_succ, isWs] at ih ⊢
+
+/-- blank characters in `FREE` only extend the pending text -/
+theorem feed_ws (g : Bool) (ws : Bytes) (c : Cfg) (w : Bytes) (s : List AFrame) (h : Sh c .free .free w s)
+    (hws : ∀ ch ∈ ws, ch = 9 ∨ ch = 10) :
+    ∃ c', feed g c ws = .cont c' ∧ Sh c' .free .free (w ++ ws) s := by
+  obtain ⟨c1, e1, u1⟩ := scan_free g ws c h.st (fun ch hch => by rcases hws ch hch with rfl | rfl <;> decide)
+  have := h.of_upd u1
+  rw [h.b] at this
+  exact ⟨c1, e1, this⟩
+
+def soleKids (cs : List Tree) : Prop := (∀ t ∈ cs, t.isText = false) ∨ ∃ s, cs = [.text s]
+
+mutual
+/-- text occurs only as the sole child of its element -/
+def SoleText : Tree → Prop
+  | .text _ => True
+  | .elem _ _ cs => soleKids cs ∧ SoleTextL cs
+def SoleTextL : List Tree → Prop
+  | [] => True
+  | t :: r => SoleText t ∧ SoleTextL r
+end
+
+theorem head_not_text (cs : List Tree) (h : ∀ t ∈ cs, t.isText = false) : (cs.head?.map Tree.isText).getD false = false := by
+  cases cs with
+  | nil => rfl
+  | cons a r => simp [h a (by simp)]
+
+theorem last_not_text (cs : List Tree) (h : ∀ t ∈ cs, t.isText = false) : (cs.getLast?.map Tree.isText).getD false = false := by
+  cases hl : cs.getLast? with
+  | none => rfl
+  | some x => simp [h x (List.mem_of_getLast? hl)]
+
+theorem absorbL_elems (cs : List Tree) (h : ∀ t ∈ cs, t.isText = false) (w : Bytes) (ks : List Tree) (hw : Blank w) :
+    flushK (absorbL cs w ks).2 (absorbL cs w ks).1 = ks ++ cs.map normOp := by
+  induction cs generalizing w ks with
+  | nil => simp [absorbL, flushK_blank _ _ hw]
+  | cons t r ih =>
+    cases t with
+    | text s => have := h (.text s) (by simp); simp [Tree.isText] at this
+    | elem tag attrs cs' =>
+      simp only [absorbL]
+      rw [ih (fun t ht => h t (by simp [ht])) [] _ blank_nil, flushK_blank _ _ hw]
+      simp
+
+theorem encodeAt_true_nil (lvl : Nat) (tag : Bytes) (attrs : List (Bytes × Bytes)) (hne : tag.isEmpty = false) :
+    encodeAt true lvl (.elem tag attrs []) = tabs lvl ++ ([60] ++ tag ++ encAttrs attrs ++ [47, 62]) ++ [10] := by
+  unfold encodeAt; simp [hne]
+
+theorem encodeAt_true_text (lvl : Nat) (tag : Bytes) (attrs : List (Bytes × Bytes)) (s : Bytes) (hne : tag.isEmpty = false) :
+    encodeAt true lvl (.elem tag attrs [.text s]) =
+      tabs lvl ++ ([60] ++ tag ++ encAttrs attrs ++ [62]) ++ escape s ++ ([60, 47] ++ tag ++ [62]) ++ [10] := by
+  unfold encodeAt; simp [hne, Tree.isText, encodeList, encodeAt]
+
+theorem encodeAt_true_elems (lvl : Nat) (tag : Bytes) (attrs : List (Bytes × Bytes)) (cs : List Tree)
+    (hne : tag.isEmpty = false) (hcs : cs.isEmpty = false) (h : ∀ t ∈ cs, t.isText = false) :
+    encodeAt true lvl (.elem tag attrs cs) =
+      tabs lvl ++ ([60] ++ tag ++ encAttrs attrs ++ [62]) ++ [10] ++ encodeList true (lvl + 1) cs ++ tabs lvl
+        ++ ([60, 47] ++ tag ++ [62]) ++ [10] := by
+  unfold encodeAt; simp [hne, hcs, head_not_text cs h, last_not_text cs h]
+
+theorem ws_tabs (n : Nat) : ∀ ch ∈ tabs n, ch = 9 ∨ ch = 10 := by
+  intro ch h; simp only [tabs, List.mem_replicate] at h; exact Or.inl h.2
+
+theorem ws_nl : ∀ ch ∈ ([10] : Bytes), ch = 9 ∨ ch = 10 := by
+  intro ch h; simp at h; exact Or.inr h
+
+mutual
+/-- the decoder on the indented encoding of one element, from `FREE` with blank pending text -/
+theorem feed_tree_i (lvl : Nat) : ∀ (t : Tree), ValidTree t → SoleText t → t.isText = false →
+    ∀ (c : Cfg) (w : Bytes) (F : AFrame) (r : List AFrame), Sh c .free .free w (F :: r) → Blank w →
+    ∃ c', feed true c (encodeAt true lvl t) = .cont c' ∧
+      Sh c' .free .free [10] ((F.1, F.2.1, F.2.2 ++ [normOp t]) :: r)
+  | .text s, _, _, hnt, _, _, _, _, _, _ => by simp [Tree.isText] at hnt
+  | .elem tag attrs cs, ht, hsole, _, c, w, F, r, h, hw => by
+    obtain ⟨htag, hattrs, hcs⟩ := ht
+    obtain ⟨hkids, hsl⟩ := hsole
+    have hne := nameOK_ne_nil tag htag
+    have hset := setAll_nil_sorted attrs hattrs
+    obtain ⟨c0, e0, s0⟩ := feed_ws true (tabs lvl) c w _ h (ws_tabs lvl)
+    have hw0 : Blank (w ++ tabs lvl) := blank_append hw (blank_tabs lvl)
+    rcases hkids with hel | ⟨s, rfl⟩
+    · cases hcs' : cs.isEmpty with
+      | true =>
+        have : cs = [] := by simpa using hcs'
+        subst this
+        obtain ⟨c1, e1, s1⟩ := feed_open_close true c0 _ tag attrs F r s0 htag hattrs.1
+        obtain ⟨c2, e2, s2⟩ := feed_ws true [10] c1 _ _ s1 ws_nl
+        refine ⟨c2, ?_, ?_⟩
+        · rw [encodeAt_true_nil lvl tag attrs hne]
+          exact feeds_append (feeds_append e0 e1) e2
+        · simpa [normOp, absorbL, attachA, flushF_blank _ _ hw0, hset, flushK] using s2
+      | false =>
+        obtain ⟨c1, e1, s1⟩ := feed_open_gt true c0 _ tag attrs F r s0 htag hattrs.1
+        obtain ⟨c2, e2, s2⟩ := feed_ws true [10] c1 _ _ s1 ws_nl
+        obtain ⟨c3, w3, e3, hw3, s3⟩ := feed_list_i (lvl + 1) cs hcs hsl hel c2 _ _ _ s2 blank_nl
+        obtain ⟨c4, e4, s4⟩ := feed_ws true (tabs lvl) c3 _ _ s3 (ws_tabs lvl)
+        have hw4 : Blank (w3 ++ tabs lvl) := blank_append hw3 (blank_tabs lvl)
+        obtain ⟨c5, e5, s5⟩ := feed_close c4 _ _ _ _ s4 htag
+        obtain ⟨c6, e6, s6⟩ := feed_ws true [10] c5 _ _ s5 ws_nl
+        refine ⟨c6, ?_, ?_⟩
+        · rw [encodeAt_true_elems lvl tag attrs cs hne hcs' hel]
+          exact feeds_append (feeds_append (feeds_append (feeds_append (feeds_append (feeds_append e0 e1) e2) e3) e4) e5) e6
+        · have hn : normOp (.elem tag attrs cs) = .elem tag attrs (cs.map normOp) := by
+            simp only [normOp]
+            rw [absorbL_elems cs hel [] [] blank_nil]; simp
+          rw [hn]
+          simpa [attachA, flushF_blank _ _ hw0, flushF_blank _ _ hw4, hset] using s6
+    · obtain ⟨c1, e1, s1⟩ := feed_open_gt true c0 _ tag attrs F r s0 htag hattrs.1
+      obtain ⟨c2, e2, u2⟩ := feed_escape true s c1 (Or.inl ⟨s1.st, s1.last⟩) hcs.1
+      have s2 := s1.of_upd u2
+      rw [s1.b] at s2
+      obtain ⟨c3, e3, s3⟩ := feed_close c2 _ _ _ _ s2 htag
+      obtain ⟨c4, e4, s4⟩ := feed_ws true [10] c3 _ _ s3 ws_nl
+      refine ⟨c4, ?_, ?_⟩
+      · rw [encodeAt_true_text lvl tag attrs s hne]
+        exact feeds_append (feeds_append (feeds_append (feeds_append e0 e1) e2) e3) e4
+      · rw [flushF_blank _ _ hw0] at s4
+        simpa [normOp, absorbL, attachA, flushF, hset] using s4
+theorem feed_list_i (lvl : Nat) : ∀ (ts : List Tree), ValidList ts → SoleTextL ts → (∀ t ∈ ts, t.isText = false) →
+    ∀ (c : Cfg) (w : Bytes) (F : AFrame) (r : List AFrame), Sh c .free .free w (F :: r) → Blank w →
+    ∃ c' w', feed true c (encodeList true lvl ts) = .cont c' ∧ Blank w' ∧
+      Sh c' .free .free w' ((F.1, F.2.1, F.2.2 ++ ts.map normOp) :: r)
+  | [], _, _, _, c, w, F, r, h, hw => ⟨c, w, rfl, hw, by simpa using h⟩
+  | t :: ts, ht, hs, hel, c, w, F, r, h, hw => by
+    obtain ⟨c1, e1, s1⟩ := feed_tree_i lvl t ht.1 hs.1 (hel t (by simp)) c w F r h hw
+    obtain ⟨c2, w2, e2, hw2, s2⟩ := feed_list_i lvl ts ht.2 hs.2 (fun x hx => hel x (by simp [hx])) c1 _ _ r s1 blank_nl
+    exact ⟨c2, w2, by simpa [encodeList] using feeds_append e1 e2, hw2, by simpa using s2⟩
+end
+
+/-- decoding the indented encoding of a valid element tree whose text nodes are sole children rebuilds `normOp` of it -/
+theorem decode_encode_indented (tag : Bytes) (attrs : List (Bytes × Bytes)) (cs : List Tree)
+    (ht : ValidTree (.elem tag attrs cs)) (hs : SoleText (.elem tag attrs cs)) :
+    ∃ n, decode (encode true (.elem tag attrs cs)) = .node n ∧ n.erase = normOp (.elem tag attrs cs) := by
+  obtain ⟨c', hf, hsh⟩ := feed_tree_i 0 (.elem tag attrs cs) ht hs rfl init [] ([], [], []) [] sh_init blank_nil
+  have hne : (encodeAt true 0 (.elem tag attrs cs)).isEmpty = false := by
+    have := nameOK_ne_nil tag ht.1
+    unfold encodeAt
+    simp only [this, Bool.false_eq_true, if_false]
+    split <;> simp [tabs]
+  have hd := decode_of_feed _ c' (encodeAt_nulfree true 0 _ ht) hne (body_of_elem true tag attrs cs ht.1) hf
+  unfold encode
+  rw [hd]
+  have hs' : Sh c' .free .free [10] [([], [], [normOp (.elem tag attrs cs)])] := by
+    simpa using hsh
+  exact finish_single c' _ _ _ _ hs'
+
 end AslProofs.Xml
